@@ -433,15 +433,48 @@ theorem Circuit.pass_facts (c : Circuit) (self : Bool) (R : Array Gate) (aR : Ar
     (h : passGates self R aR dR wit c.gates 0 (initAbs c.numWires c.nIn)
       (initDef c.numWires c.nIn) = some (abs', d')) (x : List Bool) :
     SSA c.numWires c.gates c.inputDefined ∧ Sem (c.plainEval x) c.gates ∧
-    (∀ w, w < c.nIn → (c.plainEval x).get w = (x.take c.nIn).getD w false) := by
-  obtain ⟨hssa, _, _, _⟩ := passGates_ssa _ _ _ _ _ _ _ _ _ _ _ h
+    (∀ w, w < c.nIn → (c.plainEval x).get w = (x.take c.nIn).getD w false) ∧
+    (∀ w, d'.getD w false = false → (c.plainEval x).get w = false) := by
+  obtain ⟨hssa, _, hmono, hall⟩ := passGates_ssa _ _ _ _ _ _ _ _ _ _ _ h
   rw [initDef_size, dfn_initDef _ _ hn] at hssa
+  rw [dfn_initDef _ _ hn] at hmono
   have hsz : (initStore c.numWires false (x.take c.nIn)).size = c.numWires := by simp [initStore]
   obtain ⟨hkeep, hsem⟩ := ssa_sem c.numWires c.gates _ _ hsz hssa
-  refine ⟨hssa, hsem, fun w hw => ?_⟩
-  have := hkeep w (by simp [hw])
-  simp only [Circuit.plainEval]
-  rw [this, get_initStore _ _ _ (by omega)]
+  refine ⟨hssa, hsem, fun w hw => ?_, fun w hw => ?_⟩
+  · have := hkeep w (by simp [hw])
+    simp only [Circuit.plainEval]
+    rw [this, get_initStore _ _ _ (by omega)]
+  · -- a wire that is not defined at the end is not an input and no gate writes it
+    have hnin : ¬ w < c.nIn := by
+      intro hlt
+      have := hmono w (by simp [hlt])
+      simp only [dfn] at this
+      rw [hw] at this
+      exact Bool.false_ne_true this
+    have hno : ∀ g ∈ c.gates, g.out ≠ w := by
+      intro g hg heq
+      have := (hall g hg).2.2
+      simp only [dfn, heq] at this
+      rw [hw] at this
+      exact Bool.false_ne_true this
+    simp only [Circuit.plainEval]
+    rw [evalPlainGates_frame _ _ _ hno]
+    by_cases hwn : w < c.numWires
+    · rw [get_initStore _ _ _ hwn]
+      simp only [List.getD_eq_getElem?_getD]
+      rw [List.getElem?_eq_none (by simp; omega)]
+      rfl
+    · simp [Store.get, initStore, Array.getD, hwn]
+
+theorem outAbs_sound (sR sT : Store Bool) (abs : Array AbsVal) (d : Array Bool)
+    (hinv : AInv sR sT abs d) (hundef : ∀ w, d.getD w false = false → sT.get w = false) (w : Nat) :
+    (outAbs abs d w).denote sR = sT.get w := by
+  unfold outAbs
+  cases hd : d.getD w false
+  · simp only [Bool.false_eq_true, if_false, AbsVal.denote]
+    exact (hundef w hd).symm
+  · simp only [if_true]
+    exact hinv w hd
 
 /-- **Soundness of the checker.**  If `checkRefines C C' witC witC'` answers
 `true` then the two circuits compute the same outputs on every input. -/
@@ -458,8 +491,8 @@ theorem checkRefines_sound (C C' : Circuit) (witC witC' : Array Nat)
     · rename_i m d' hrun'
       simp only [Circuit.absRun] at hrun
       have hsR := passGates_ssa _ _ _ _ _ _ _ _ _ _ _ hrun
-      obtain ⟨_, hsemR, hinR⟩ := C.pass_facts true _ _ _ _ _ _ hn hrun x
-      obtain ⟨_, hsemT, hinT⟩ := C'.pass_facts false _ _ _ _ _ _ hn' hrun' x
+      obtain ⟨_, hsemR, hinR, hundR⟩ := C.pass_facts true _ _ _ _ _ _ hn hrun x
+      obtain ⟨_, hsemT, hinT, hundT⟩ := C'.pass_facts false _ _ _ _ _ _ hn' hrun' x
       have hsemR' : Sem (C.plainEval x) C.gates.toArray.toList := by simpa using hsemR
       -- invariant for the reference circuit
       have hinvR : AInv (C.plainEval x) (C.plainEval x) absC dC := by
@@ -482,14 +515,14 @@ theorem checkRefines_sound (C C' : Circuit) (witC witC' : Array Nat)
         rw [hinT w hw', hinR w (by omega), hnin]
         cases (List.take C'.nIn x).getD w false <;> rfl
       -- outputs
-      simp only [List.all_eq_true, List.mem_range, Bool.and_eq_true, beq_iff_eq] at h
+      simp only [List.all_eq_true, List.mem_range, beq_iff_eq] at h
       simp only [Circuit.compute, Circuit.outputs]
       rw [← hnout]
       apply List.map_congr_left
       intro i hi
-      obtain ⟨⟨hdR, hdT⟩, heq⟩ := h i (List.mem_range.mp hi)
-      rw [← hnout] at hdT heq
-      rw [← hinvT _ hdT, heq, hinvR _ hdR]
+      have heq := h i (List.mem_range.mp hi)
+      rw [← hnout] at heq
+      rw [← outAbs_sound _ _ _ _ hinvT hundT, heq, outAbs_sound _ _ _ _ hinvR hundR]
 
 /-- A successful check also certifies that both circuits are well-formed
 (`Circuit.WF`, the guard of the C01 theorems). -/
